@@ -554,6 +554,26 @@ def template_programs(rng):
             stm += [putc(bi('+', num(48), idx('offs', num(c)))), exit_(bi('-', idx('buf', idx('offs', num(c))), num(70000)))]
             pp = proc(False, [], locs, seq(stm))
             out.append(('slotidx:%d:%d' % (nloc, c), program([], {'buf': 3, 'offs': 6}, {'main': proc(False, [], [], callst(call('pp', []))), 'pp': pp}, {}, {}, ['main', 'pp'])))
+    # functions with two ways out: an early return taken with something else than the stack pointer in breg (the right operand of a
+    # comparison), and a last return right after a store to a local (a peephole that remembers "breg holds sp" across the removed branch to
+    # the exit label drops the reload there)
+    for nm, cnd in (('lt', lambda g, y: bi('<', g, y)), ('eq', lambda g, y: bi('=', g, y)), ('ge', lambda g, y: bi('>=', g, y))):
+        for early in (num(1), var('y')):
+            for lastk in (0, 1):
+                body = [iff(cnd(var('g'), var('y')), ret(early), skip()), ass(var('t'), bi('+', var('g'), num(1)))]
+                body += [ret(var('t'))] if lastk == 0 else [ass(var('u'), var('t')), ret(var('u'))]
+                f = proc(True, [('val', 'g'), ('val', 'y')], ['t', 'u'], seq(body))
+                main = seq([putc(bi('+', num(48), call('cl', [num(1), num(5)]))), putc(bi('+', num(48), call('cl', [num(5), num(1)]))), putc(bi('+', num(48), call('cl', [num(3), num(3)]))),
+                            exit_(bi('+', call('cl', [num(2), num(7)]), call('cl', [num(7), num(2)])))])
+                out.append(('tworet:%s:%s:%d' % (nm, 'c' if early['k'] == 'num' else 'v', lastk), std_program(main, {'cl': f})))
+    # a LOCAL val of an earlier procedure with the name of a GLOBAL val that later procedures use (bounds of a loop over the only array,
+    # which sits at the top of memory): a constant table keyed by name alone leaks the local value into them
+    for lv in (12, 1):
+        first = proc(False, [], [], putc(bi('+', num(48), bi('-', var('n'), num(lv)))), lvals={'n': num(lv)})
+        later = proc(False, [], ['i'], seq([ass(var('i'), num(0)), whl(bi('<', var('i'), var('n')), seq([ass(idx('a', var('i')), bi('+', var('i'), num(1))), ass(var('i'), bi('+', var('i'), num(1)))])),
+                                            putc(bi('+', num(48), var('n')))]))
+        m = proc(False, [], [], seq([callst(call('first', [])), callst(call('later', [])), exit_(bi('+', idx('a', num(2)), var('n')))]))
+        out.append(('valleak:%d' % lv, program([], {'a': var('n')} if False else {'a': 3}, {'first': first, 'later': later, 'main': m}, {'n': num(3)}, {}, ['first', 'later', 'main'])))
     # string literals and character constants with bytes above 127 (Latin-1 / UTF-8 text): a byte is a byte, 0..255
     for nm, txt in (('utf8', [0xC3, 0xA9, 0x7A]), ('first', [0x80, 0x41, 0x42, 0x43, 0x44]), ('last', [0x41, 0x42, 0xFE]), ('mid', [0x61, 0xE9, 0x62, 0x63, 0xA0, 0x64, 0x65, 0x66]),
                     ('all', [0x80, 0x81, 0xFE, 0xFD, 0x90, 0xA5, 0xB6])):
